@@ -184,7 +184,8 @@ theorem error_local (w : World) (c : Nat) (hc : w.cur = some c) (hd : w.dead.con
     (errorHandler w).hbs = rmFirst c w.hbs ∧ (errorHandler w).dead = w.dead ∧ (errorHandler w).known = w.known ∧
     (errorHandler w).cur = none := by
   have hsm : ¬ ((0 : Int) > shrtMax) := by decide
-  unfold errorHandler
+  rw [errorHandler_eq_ref]
+  unfold errorHandlerRef
   rw [hc]
   simp only [setHeartBeat_eq_ref]
   unfold setHeartBeatRef
@@ -224,5 +225,66 @@ theorem error_local_others (w : World) (c y : Nat) (hc : w.cur = some c) (hd : w
 
 example : (errorHandler { hbs := [⟨2, 1, 1⟩, ⟨3, 2, 2⟩, ⟨4, 1, 3⟩], cap := 32, cur := some 3 }).hbs = [⟨2, 1, 1⟩, ⟨4, 1, 3⟩] := by
   decide
+
+/-- **faults stay local (call context).**  Whatever the world looked like before - another heart_beat enabled commands
+    (command_giver = that object), used up its evaluation cost, or raised an error that left command_giver behind - the
+    statements that call_heart_beat executes in front of the call (`NV.Gen.C11.callFrame`, regenerated from the source)
+    give the called object a clean context: current_heart_beat = ob, command_giver = ob iff ob is living (else 0),
+    full evaluation cost; nothing else changes. -/
+theorem call_context_clean (w : World) (ob : Nat) :
+    (callSetup w ob).cur = some ob ∧ (callSetup w ob).cg = ctxGiver ob (w.living.contains ob) ∧
+    (callSetup w ob).ec = true ∧ (callSetup w ob).hbs = w.hbs ∧ (callSetup w ob).idx = w.idx ∧
+    (callSetup w ob).todo = w.todo ∧ (callSetup w ob).living = w.living := by
+  rw [callSetup_ref]
+  exact ⟨rfl, rfl, rfl, rfl, rfl, rfl, rfl⟩
+
+/-- ... and the oracle's clause `ctx` accepts exactly that context: the event the model emits at the entry of a
+    heart_beat is accepted in every oracle state that expects the body of `ob`'s heart_beat -/
+theorem call_context_accepted (w : World) (ob : Nat) (j : JState) (he : j.expect = .inBeat) (hc : j.cur = some ob) :
+    judge1 j (ctxEv (callSetup w ob) ob) = j := by
+  rw [callSetup_ref]
+  simp [ctxEv, judge1, he, hc, ctxGiver]
+
+/-- the clause is not vacuous: a living object that sees no this_player(), a stranger as this_player(), or a used-up
+    evaluation cost is a violation -/
+example : judgeEv [.clone 0 2 0 1 1, .tickBegin, .beat 2, .ctx 2 true none true] ≠ [] := by decide
+example : judgeEv [.clone 0 2 0 1 1, .tickBegin, .beat 2, .ctx 2 false (some 3) true] ≠ [] := by decide
+example : judgeEv [.clone 0 2 0 1 1, .tickBegin, .beat 2, .ctx 2 false none false] ≠ [] := by decide
+example : judgeEv [.clone 0 2 0 1 1, .tickBegin, .beat 2, .ctx 2 true (some 2) true, .beatEnd 2, .tickEnd] = [] := by decide
+example : (callSetup { cg := some 7, ec := false, living := [3] } 3).cg = some 3 ∧
+    (callSetup { cg := some 7, ec := false, living := [3] } 2).cg = none ∧
+    (callSetup { cg := some 7, ec := false, living := [3] } 2).ec = true := by decide
+
+/-- **a caught error is not a fault of the heart beat.**  `catch (error (...))` leaves error_handler through its catch
+    branch (`NV.Gen.C11.errOrder`: that branch comes first), so nothing is switched off and the script goes on -/
+theorem caught_error_keeps_heart_beat (w : World) (self : Nat) :
+    stepOpBasic w self .cerr = (w, [.caught self], .ok) ∧ NV.Gen.C11.errOrder.head? = some 0 := ⟨rfl, rfl⟩
+
+/-- **timer_flags without TIMER_FLAG_HEARTBEAT**: a tick runs no round at all - nobody beats, no countdown moves, the
+    list is untouched; `heart_beat_index` keeps its (possibly stale) value and `num_hb_to_do = num_hb_objs` stays
+    non-zero until the next real round, so removals in between are "compensated" (harmless: `hb_index_in_bounds`) -/
+theorem no_round_without_heartbeat_flag (sc : Scripts) (w : World) (h : hbOn w.tflags = false) :
+    (tickCore sc w).2 = [.tickOff, .tickEnd] ∧ (tickCore sc w).1.hbs = w.hbs ∧ (tickCore sc w).1.idx = w.idx ∧
+    (tickCore sc w).1.todo = (w.hbs.length : Int) ∧ (tickCore sc w).1.cur = none ∧ (tickCore sc w).1.flag = false := by
+  rw [tick_eq_ref]
+  unfold tickRef
+  rw [h]
+  exact ⟨rfl, rfl, rfl, rfl, rfl, rfl⟩
+
+example : hbOn 0 = false ∧ hbOn 1 = false ∧ hbOn 2 = true ∧ hbOn 3 = true ∧ hbOn 4 = false ∧ hbOn 6 = true := by decide
+
+/-- with the flag set and a non-empty list the round starts at index 0 with `num_hb_to_do = num_hb_objs` -/
+theorem round_entered_iff (sc : Scripts) (w : World) :
+    (tickCore sc w).2.head? = some (if hbOn w.tflags then Ev.tickBegin else Ev.tickOff) := by
+  rw [tick_eq_ref]
+  unfold tickRef
+  cases hbOn w.tflags with
+  | false => rfl
+  | true =>
+    simp only [if_true]
+    split
+    · rfl
+    · rfl
+
 
 end NV.C11
